@@ -3,6 +3,7 @@ use crate::analysis::type_resolver::TypeResolver;
 use crate::analysis::validator_parser::ValidatorParser;
 use crate::models::{FieldInfo, StructInfo};
 use std::path::Path;
+use syn::ext::IdentExt;
 use syn::{Attribute, ItemEnum, ItemStruct, Type, Visibility};
 
 /// Parser for Rust structs and enums
@@ -95,7 +96,7 @@ impl StructParser {
         };
 
         Some(StructInfo {
-            name: item_struct.ident.to_string(),
+            name: item_struct.ident.unraw().to_string(),
             fields,
             file_path: file_path.to_string_lossy().to_string(),
             is_enum: false,
@@ -112,7 +113,7 @@ impl StructParser {
             .variants
             .iter()
             .map(|variant| {
-                let variant_name = variant.ident.to_string();
+                let variant_name = variant.ident.unraw().to_string();
 
                 // Parse variant-level serde attributes
                 let variant_serde_attrs = self.serde_parser.parse_field_serde_attrs(&variant.attrs);
@@ -169,7 +170,7 @@ impl StructParser {
             .collect();
 
         Some(StructInfo {
-            name: item_enum.ident.to_string(),
+            name: item_enum.ident.unraw().to_string(),
             fields,
             file_path: file_path.to_string_lossy().to_string(),
             is_enum: true,
@@ -183,7 +184,7 @@ impl StructParser {
         field: &syn::Field,
         type_resolver: &mut TypeResolver,
     ) -> Option<FieldInfo> {
-        let name = field.ident.as_ref()?.to_string();
+        let name = field.ident.as_ref()?.unraw().to_string();
 
         // Parse field-level serde attributes
         let field_serde_attrs = self.serde_parser.parse_field_serde_attrs(&field.attrs);
